@@ -2,6 +2,7 @@ import Model.Common.Proto
 import Model.C15.Wire
 import Model.C15.Text
 import Model.C15.Eval
+import Model.C15.Bounds
 import Generated.Miniscript
 open Btc Btc.Miniscript Btc.Miniscript.Wire
 
@@ -32,6 +33,9 @@ def handle : List String → String
       | some n => "ok " ++ " ".intercalate (render n)
       | none => "err value"
     | _, _ => "bad-op"
+  | "bounds" :: ctx :: toks => withMs ctx toks fun c n =>
+    let b (x : Bool) := if x then "True" else "False"
+    s!"ok ops={renderOB (maxOps c n)} stack={renderOI (maxStackItems c n)} exec={renderOI (maxExecStackItems c n)} wit={renderOB (maxWitnessSize c n)} limits={b (withinLimits c n)} sane={b (isSane c n)} dup={b (hasDup (keysOf n))}"
   | "exec" :: ctx :: sigs :: wit :: toks =>
     -- sigs: `key:sig,…` (the signatures that verify); wit: the witness stack, bottom first, `,`-separated
     match readTable sigs, (if wit == "-" then some [] else (wit.splitOn ",").mapM fromHex?) with
